@@ -302,11 +302,35 @@ GoodLinkDocs(lay, dir, s, depth) ==
        /\ g.step = s.name /\ g.fkey \in GoodKeysOf(lay, dir, s, depth)
        /\ Doc(g.doc).typ = "link" /\ DocSignedBy(Doc(g.doc), g.fkey)}}
 
+\* A valid sub-layout stands for its SUMMARY link (first step's materials, last step's products).  The
+\* requirement layer speaks about a summary only where it is determined: the sub-layout's first and last
+\* step are each decided by exactly one piece of valid evidence, a plain link.
+OneGoodPlain(lay, dir, s, depth) ==
+  /\ Cardinality(GoodKeysOf(lay, dir, s, depth)) = 1
+  /\ Cardinality(GoodLinkDocs(lay, dir, s, depth)) = 1
+  /\ \A k \in GoodKeysOf(lay, dir, s, depth) :
+       \A f \in DirFiles(dir) : f.step = s.name /\ f.fkey = k => Doc(f.doc).typ = "link"
+SummaryDefined(sub, sdir, depth) ==
+  LET st == Doc(sub).steps IN
+  st # << >> /\ OneGoodPlain(sub, sdir, st[1], depth) /\ OneGoodPlain(sub, sdir, st[Len(st)], depth)
+TheGoodLink(lay, dir, s, depth) == CHOOSE d \in GoodLinkDocs(lay, dir, s, depth) : TRUE
+SummaryView(sub, sdir, depth) ==
+  LET st == Doc(sub).steps IN
+  [mats |-> TheGoodLink(sub, sdir, st[1], depth).mats, prods |-> TheGoodLink(sub, sdir, st[Len(st)], depth).prods]
+
+\* what the valid evidence of a step reports: plain links as they are, sub-layouts through their summary
+EvidenceViews(lay, dir, s, depth) ==
+  {[mats |-> d.mats, prods |-> d.prods] : d \in GoodLinkDocs(lay, dir, s, depth)}
+  \cup {SummaryView(f.doc, SubDir(dir, s.name, f.fkey), depth - 1) :
+          f \in {g \in DirFiles(dir) :
+                   /\ g.step = s.name /\ g.fkey \in GoodKeysOf(lay, dir, s, depth)
+                   /\ Doc(g.doc).typ = "layout" /\ depth > 0
+                   /\ SummaryDefined(g.doc, SubDir(dir, s.name, g.fkey), depth - 1)}}
+
 \* C07
 NecC07(lay, dir, depth) ==
   \A s \in SR(Doc(lay).steps) :
-     s.thr >= 2 => \A a, b \in GoodLinkDocs(lay, dir, s, depth) :
-                      a.mats = b.mats /\ a.prods = b.prods
+     s.thr >= 2 => \A a, b \in EvidenceViews(lay, dir, s, depth) : a = b
 
 \* C03 inside the pipeline: when every step has exactly one piece of valid
 \* evidence and it is a plain link, the step rules are decided by that link
